@@ -592,6 +592,9 @@ def translate_flatten_dofs(fn):
         flat = 'S'                                   # repeated indices are kept
     elif arr == ['_, ix = np.unique(S, return_index=True)', 'return S[np.sort(ix)]']:
         flat = 'dedup_first S'                       # first occurrences, original order
+    elif arr == ['if S.size == 0:\n    return S.astype(np.int32)', '_, ix = np.unique(S, return_index=True)', 'return S[np.sort(ix)]']:
+        # an empty array (np.array([]) is an array of floats) is the empty index set
+        flat = 'if Nat.eqb (length S) 0 then S else dedup_first S'
     else:
         raise TranslateError('_flatten_dofs ndarray branch: ' + repr(arr))
     _expect(tests[1][1][0], 'return S.flatten()', '_flatten_dofs view')
